@@ -278,9 +278,11 @@ func vRunDiffC53(e *vEnv, from, to string, metadata bool) (*vDiffOutC53, error) 
 }
 
 // vCompareC53 compares the output with the reference. It returns a description of the
-// deviation ("" = none) and whether the deviation has exactly the shape of the known
-// finding: every missing line is a strict descendant of a path reported "T" whose type
-// changed between directory and non-directory, and nothing else is wrong.
+// deviation ("" = none) and whether the deviation has exactly the shape of the finding
+// C53:dir-file-type-change-hides-descendants (repaired in /repo by 7bdcd56e8, listed as
+// "fixed", so st.Known is false for it and the shape fails like any other deviation):
+// every missing line is a strict descendant of a path reported "T" whose type changed
+// between directory and non-directory, and nothing else is wrong.
 func vCompareC53(a, b *vStoredC53, got *vDiffOutC53, metadata bool) (dev string, knownShape bool, nDirTypeChange int) {
 	want := vRefDiffC53(a, b)
 	var devs []string
@@ -518,12 +520,8 @@ func (ed *vEditorC53) remove(p string) {
 	}
 }
 
-// edits that replace a directory by a non-directory (or vice versa) run into the known
-// finding, which hides everything else in that case: they get half the weight
-var vEditKindsC53 = []string{"add-file", "add-dir", "add-symlink", "remove", "content-same-size", "content-resize", "chmod", "touch",
-	"add-file", "add-dir", "add-symlink", "remove", "content-same-size", "content-resize", "chmod", "touch",
-	"file-to-symlink", "symlink-to-file", "file-to-symlink", "symlink-to-file",
-	"file-to-dir", "dir-to-file", "dir-to-symlink", "symlink-to-dir"}
+var vEditKindsC53 = []string{"add-file", "add-dir", "add-symlink", "remove", "content-same-size", "content-same-size", "content-resize",
+	"chmod", "touch", "file-to-dir", "dir-to-file", "file-to-symlink", "symlink-to-file", "dir-to-symlink", "symlink-to-dir"}
 
 // step applies one drawn edit; returns false if it was not applicable.
 func (ed *vEditorC53) step(i int) bool {
